@@ -225,8 +225,13 @@ def run_tlc(module, cfg, workers=16, extra=(), timeout=3600, env=None, coverage=
         if m:
             r.violation = m.group(1)
         if coverage:
+            # a run longer than a minute prints interim coverage blocks: read the last one only
+            cov_text = p.stdout
+            k = cov_text.rfind("The coverage statistics at")
+            if k >= 0:
+                cov_text = cov_text[k:]
             for m in re.finditer(r"<(\w+) line \d+, col \d+ to line \d+, col \d+ of module \w+(?: \([\d ]+\))?>: (\d+):(\d+)",
-                                 p.stdout):
+                                 cov_text):
                 nm = m.group(1)
                 d, t = int(m.group(2)), int(m.group(3))
                 a = r.coverage.get(nm, (0, 0))
